@@ -848,6 +848,10 @@ pub fn readonly_dir_phase(ws: &WsCase, opts: &PushOpts, cx: &mut CaseCtx) -> Opt
     if exp.hard_error {
         return None;
     }
+    // dropping privileges needs root; without it this phase is skipped
+    if unsafe { libc::geteuid() } != 0 {
+        return None;
+    }
     let end = &ws.states[exp.applied];
     let victim: String = ws
         .spec
